@@ -125,6 +125,11 @@ def mulAssign (a b : List (M × R)) : List (M × R) :=
   else if isConst a then smul b (constTerm a)      -- `*self = rhs * self.const_term()`
   else mul a b
 
+/-- `Pow<usize> for &PolyBase`: `res = one(); for _ in 0..n { res *= self }` -/
+def powP (a : List (M × R)) : Nat → List (M × R)
+  | 0 => fromConst 1
+  | n + 1 => mulAssign (powP a n) a
+
 /-- `AddMon::sum`: fold from zero with `+=` -/
 def sumR (l : List R) : R := l.foldl (· + ·) 0
 
